@@ -705,6 +705,15 @@ mod core_simd {
     macro_rules! backend_arr { (coresimd [ $($t:tt)* ]) => { &[ $($t)* ] }; ($o:ident [ $($t:tt)* ]) => { &[] }; }
     include!("suite.rs");
 }
+/// core-simd with `glam-assert`: the second pass for the portable-simd copies (a quarter of the volume)
+#[cfg(feature = "core")]
+mod core_asserting {
+    pub const VARIANT: &str = "core+glam-assert";
+    use ::glam_core_assert as glam;
+    macro_rules! backend_items { (coresimd { $($t:tt)* }) => { $($t)* }; ($o:ident { $($t:tt)* }) => {}; }
+    macro_rules! backend_arr { (coresimd [ $($t:tt)* ]) => { &[ $($t)* ] }; ($o:ident [ $($t:tt)* ]) => { &[] }; }
+    include!("suite.rs");
+}
 
 fn main() {
     let args = Args::parse();
@@ -719,6 +728,7 @@ fn main() {
     #[cfg(feature = "core")]
     {
         subs.extend(core_simd::subs(&args));
+        subs.extend(core_asserting::subs(&args).into_iter().map(|s| s.with_div(4)));
     }
     let code = main_with("C14", "see MANIFEST / evidence rule", &args, subs);
     std::process::exit(code);
